@@ -2,6 +2,7 @@ import LunarVerif.Base.Proto
 import LunarVerif.Spec.C12
 import LunarVerif.Spec.C12Conc
 import LunarVerif.Spec.C12Shared
+import LunarVerif.Spec.C12SharedT
 /-! Driver for C12: `lvdriver_c12 run` (model answers) / `lvdriver_c12 judge` (Spec on the implementation's answers).
 
 Case layout (one `cfg` line, then operations):
@@ -11,6 +12,8 @@ Case layout (one `cfg` line, then operations):
                (yaml: the configuration goes through config.ReadPoliciesConfig; persisted: additionally through
                 WritePoliciesConfig → ReadPoliciesConfig, the copy a revert reads.  Today's code writes the type as a
                 number and refuses numbers when reading: `err:reload`, nothing is configured)
+  cfg tshared  t0=<ns> r0=<rel|abs|undef>/<statuses>/<header> r1=…      (several throttling configurations, ONE plugin;
+               ops: resp r=<i> m= u= id= st= body= h=<name:value,…  sorted by name> | req r=<i> m= u=)
   cfg shared   t0=<ns> r0=<ttl8>/<maxrec>/<maxb>/<paths> r1=…        (several caching remedies, ONE plugin; ops carry r=<index>)
 cache ops   : set k= v= ttl8=   | get k= | has k= | del k=
 gated ops   : cset id= k= v= ttl8= | cget id= k= | chas id= k=  (the call runs up to its clock read and parks there)
@@ -26,6 +29,7 @@ inductive Mode where
   | caching (cfg : CCfg) (paths : List (Bool × String)) (c : CCache String)
   | throttle (cfg : TCfg) (hdr : String) (c : TCache String)
   | shared (rems : List (CCfg × List (Bool × String))) (c : SCache String)
+  | tshared (rems : List (TRemedy String)) (c : TSCache String)
 
 def ttlUnit : Int := 125000000
 
@@ -55,6 +59,20 @@ def parseNatList (w : String) : Option (List Nat) :=
   let s := pctDec w
   if s.isEmpty then some [] else (s.splitOn ",").mapM String.toNat?
 
+def parseRaType (ty : String) : Option RaType :=
+  if ty == "rel" then some .rel else if ty == "abs" then some .abs else if ty == "undef" then some .undef else none
+
+def parseTRemedy (w : String) : Option (TRemedy String) :=
+  match w.splitOn "/" with
+  | [a, b, c] => do
+    let ty ← parseRaType a
+    let sts ← parseNatList b
+    pure ⟨⟨ty, sts⟩, pctDec c⟩
+  | _ => none
+
+/-- `name:value,name:value` (the whole word percent-encoded) -/
+def parseHdrs (w : String) : Option (List (String × String)) := parsePP w
+
 def parseRemedy (w : String) : Option (CCfg × List (Bool × String)) :=
   match w.splitOn "/" with
   | [a, b, c, d] => do
@@ -80,6 +98,10 @@ def parseCfg (ws : List String) : Option Mode :=
     let maxb ← kvNat ws "maxb"
     let paths ← kv ws "paths"
     pure (.caching ⟨ttl8 * ttlUnit, maxrec, maxb⟩ (parsePaths paths) (Cache.init t0 false 0))
+  | "tshared" :: ws => do
+    let t0 ← kvInt ws "t0"
+    let rems ← (["r0", "r1", "r2", "r3"].filterMap (kv ws)).mapM parseTRemedy
+    if rems.isEmpty then none else pure (.tshared rems (Cache.init t0 false 0))
   | "shared" :: ws => do
     let t0 ← kvInt ws "t0"
     let rems ← (["r0", "r1", "r2", "r3"].filterMap (kv ws)).mapM parseRemedy
@@ -175,6 +197,40 @@ def parseSOp (rems : List (CCfg × List (Bool × String))) (ws : List String) : 
     | .resp m u sel r bl sz => pure (.resp rm m u sel r bl sz)
     | .req m u sel => pure (.req rm m u sel)
     | _ => none
+
+def parseTSOp (rems : List (TRemedy String)) (ws : List String) : Option (TSOp String) :=
+  match parseClock ws with
+  | some (.fire i) => some (.fire i)
+  | some (.skip d) => some (.skip d)
+  | some (.adv d) => some (.adv d)
+  | some .probe => some .probe
+  | none => do
+    let idx ← kvNat ws "r"
+    let rm ← rems[idx]?
+    let m ← kvS ws "m"
+    let u ← kvS ws "u"
+    match ws with
+    | "resp" :: _ => do
+      let id ← kvS ws "id"
+      let st ← kvNat ws "st"
+      let body ← kvS ws "body"
+      let hdrs ← (kv ws "h").bind parseHdrs
+      pure (.resp rm m u ⟨id, st, body, hdrs⟩)
+    | "req" :: _ => pure (.req rm m u)
+    | _ => none
+
+def fmtHVals (hs : List (String × HVal String)) : String :=
+  pctEnc (",".intercalate (hs.map fun (k, v) => match v with
+    | .raw x => k ++ ":" ++ x
+    | .ns n => k ++ ":#" ++ toString n))
+
+def fmtTSOut : TSOut String → String
+  | .noop => "noop"
+  | .early st body hs => s!"early st={st} body={pctEnc body} h={fmtHVals hs}"
+  | .fired r => match r with | .fired => "fired" | .notDue => "not-due" | .absent => "none"
+  | .advd n => s!"ok fired={n}"
+  | .unit => "ok"
+  | .probed t h n p => s!"tracked={t} held={h} n={n} pending={p}"
 
 def fmtFire : FireRes → String
   | .fired => "fired"
@@ -321,6 +377,11 @@ def runStep (s : Mode) (line : String) : Mode × String :=
       match parseSOp rems ws with
       | some op => (.shared rems (sstep c op).1, fmtPOut (sstep c op).2)
       | none => (s, "bad-op")
+    | .tshared rems c =>
+      match parseTSOp rems ws with
+      | some op =>
+        (.tshared rems (tsstep absTtlFloat parseDecNs c op).1, fmtTSOut (tsstep absTtlFloat parseDecNs c op).2)
+      | none => (s, "bad-op")
 
 /-! ### judge -/
 
@@ -368,6 +429,29 @@ def parsePOut (op : POp String) (ows : List String) : Option (POut String) :=
   | .probe, ws => (parseProbe ws).map fun (t, h, n, p) => .probed t h n p
   | _, _ => none
 
+def parseHVals (w : String) : Option (List (String × HVal String)) :=
+  (parsePP w).map fun l => l.map fun (k, v) =>
+    if v.startsWith "#" then
+      match (v.drop 1).toString.toInt? with
+      | some n => (k, HVal.ns n)
+      | none => (k, HVal.raw v)
+    else (k, HVal.raw v)
+
+def parseTSOut (op : TSOp String) (ows : List String) : Option (TSOut String) :=
+  match op, ows with
+  | .resp .., ["noop"] => some .noop
+  | .req .., ["noop"] => some .noop
+  | .req .., "early" :: ws => do
+    let st ← kvNat ws "st"
+    let body ← kvS ws "body"
+    let hs ← (kv ws "h").bind parseHVals
+    pure (.early st body hs)
+  | .fire _, [w] => (parseFire w).map .fired
+  | .skip _, ["ok"] => some .unit
+  | .adv _, ["ok", w] => (kvNat [w] "fired").map .advd
+  | .probe, ws => (parseProbe ws).map fun (t, h, n, p) => .probed t h n p
+  | _, _ => none
+
 inductive GInfo where
   | set (k v : String) (ttl : Int) (sz : Nat)
   | get (k : String) (pos : Nat)
@@ -386,6 +470,7 @@ inductive JMode where
   | caching (cfg : CCfg) (paths : List (Bool × String)) (hist : List (PRec String))
   | throttle (cfg : TCfg) (hdr : String) (hist : List (PRec String))
   | shared (rems : List (CCfg × List (Bool × String))) (hist : List (SRec String))
+  | tshared (rems : List (TRemedy String)) (hist : List (TSRec String))
 
 structure JudgeSt where
   mode : JMode := .none
@@ -412,6 +497,7 @@ def judgeStep (s : JudgeSt) (op out : String) : JudgeSt :=
     | .none, some (.caching cfg paths c) => { s with mode := .caching cfg paths [], now := c.now }
     | .none, some (.throttle cfg hdr c) => { s with mode := .throttle cfg hdr [], now := c.now }
     | .none, some (.shared rems c) => { s with mode := .shared rems [], now := c.now }
+    | .none, some (.tshared rems c) => { s with mode := .tshared rems [], now := c.now }
     | _, _ => { s with bad := some "cfg-accepted-but-unparsable" }
   | ws =>
     let dt : Nat := match parseClock ws with | some c => advanceOf c | none => 0
@@ -494,6 +580,13 @@ def judgeStep (s : JudgeSt) (op out : String) : JudgeSt :=
         match parsePOut pop ows with
         | some o => { s with mode := .shared rems (⟨s.now, sop, o⟩ :: hist), now := s.now + dt }
         | none => { s with bad := some ("unparsable-output:" ++ pctEnc out) }
+    | .tshared rems hist =>
+      match parseTSOp rems ws with
+      | none => if out == "bad-op" then s else { s with bad := some "unparsable-op-answered" }
+      | some op =>
+        match parseTSOut op ows with
+        | some o => { s with mode := .tshared rems (⟨s.now, op, o⟩ :: hist), now := s.now + dt }
+        | none => { s with bad := some ("unparsable-output:" ++ pctEnc out) }
 
 /-- index (from the oldest, 1-based) and instant of the oldest record violating `ok`. -/
 def firstBad {ρ : Type} (ok : ρ → List ρ → Bool) (t : ρ → Int) : List ρ → Option (Nat × Int)
@@ -529,6 +622,9 @@ def judgeFinish (s : JudgeSt) : String :=
     | .shared _ hist =>
       if sholdsRev false hist then "ok"
       else s!"fail - shared caching: replay-not-justified-or-size-clause at {describe (firstBad (sRecOk false) (·.t) hist)}"
+    | .tshared _ hist =>
+      if tsholdsRev parseDecNs hist then "ok"
+      else s!"fail - shared throttling: replay-not-justified-for-the-answering-configuration at {describe (firstBad (tsRecOk parseDecNs) (·.t) hist)}"
 
 def main (args : List String) : IO Unit :=
   match args with
